@@ -20,6 +20,8 @@ def one(ctx, data, meta=None, opts=pk.OPTS):
     pkgvalid = v.pop('<package>', None) is True if isinstance(v, dict) else False
     comvalid = v.pop('<comments>', None) is True if isinstance(v, dict) else False
     srcvalid = v.pop('<sources>', None) is True if isinstance(v, dict) else False
+    srcpkg = v.pop('<srcpackage>', None) is True if isinstance(v, dict) else False
+    ctx.count('validSrcPkg holds (hypothesis of C13_source_package_total: the package AS STORED)' if srcpkg else 'validSrcPkg false')
     ctx.count('source trees validT, goodTree, sameWb (hypotheses of C13_source_part_total)' if srcvalid else 'a source tree is not validT / goodTree / sameWb')
     ctx.count('commentsOK holds (hypothesis of C13_comments_total)' if comvalid else 'commentsOK false')
     allvalid = all(isinstance(x, dict) and x.get('ok') is True for x in v.values()) if isinstance(v, dict) and 'err' not in v else False
